@@ -269,7 +269,7 @@ def run_observed(case):
     return out, (out2.Xw if same else None), not same
 
 
-def buffer_drift(case, w_full, Xw_buf):
+def buffer_drift(case, w_full, Xw_buf, extra_scale=0.):
     """relative mismatch between the solver's model-fit buffer and X w + b recomputed from the returned w"""
     X = np.array(case["X"], float)
     y = np.array(case["y"], float)
@@ -294,7 +294,7 @@ def buffer_drift(case, w_full, Xw_buf):
         w0 = np.abs(np.array(case["init"]["w"], float))
         nv = X.shape[1]
         den += float(np.max(np.abs(X) @ w0[:nv])) + (float(np.max(w0[nv:])) if len(w0) > nv else 0.)
-    den += 1e-300
+    den += 1e-300 + extra_scale      # extra_scale: largest |Xw| the same buffer held earlier in a history
     return float(np.max(np.abs(np.asarray(Xw_buf, float) - true))) / den, true
 
 
